@@ -8,7 +8,11 @@ package main
 
 import (
 	"fmt"
+	"os"
+	"sort"
 	"strings"
+
+	"golang.org/x/tools/go/ssa"
 )
 
 func (r *rwRT) ruleYieldType() {
@@ -72,4 +76,299 @@ func (r *rwRT) ruleYieldType() {
 	c.check(bad == "" && accepting > 0, "RW.YIELDTYPE", "yield operand assignable to the element type", pos,
 		fmt.Sprintf("%d paths: a yield is rejected only when types.AssignableTo(typeof(operand), element type) is false", len(outs)),
 		map[bool]string{true: bad, false: "every path rejects the yield"}[bad != ""])
+}
+
+// RW.RECOVER (C12): the diagnostics of the rewriter are panics (r.assert). A recover() anywhere in package
+// rewriter that does not re-raise what it caught turns a rejection into a silent skip: the run ends normally
+// and whatever was generated before stays in place. Every recover site must pass the recovered value on to a
+// panic (the private abort sentinel of the yield search is compared first and everything else re-raised).
+func (r *rwRT) ruleRecover() {
+	c := r.c
+	sites := 0
+	for _, f := range r.w.FuncsOf(pathRw) {
+		for _, b := range f.Blocks {
+			for _, ins := range b.Instrs {
+				call, ok := ins.(*ssa.Call)
+				if !ok {
+					continue
+				}
+				if bi, ok := call.Call.Value.(*ssa.Builtin); !ok || bi.Name() != "recover" {
+					continue
+				}
+				sites++
+				c.fn(relName(f))
+				// forward flow of the recovered value (through phis and interface conversions) into a panic
+				seen := map[ssa.Value]bool{}
+				work := []ssa.Value{call}
+				reraised := false
+				for len(work) > 0 {
+					v := work[0]
+					work = work[1:]
+					if seen[v] {
+						continue
+					}
+					seen[v] = true
+					if v.Referrers() == nil {
+						continue
+					}
+					for _, ref := range *v.Referrers() {
+						switch x := ref.(type) {
+						case *ssa.Panic:
+							reraised = true
+						case *ssa.Phi:
+							work = append(work, x)
+						case *ssa.MakeInterface:
+							work = append(work, x)
+						case *ssa.ChangeInterface:
+							work = append(work, x)
+						case *ssa.Store:
+							// kept in a variable of the function (defer closures capture it): follow the loads of that cell
+							if al, ok := x.Addr.(*ssa.Alloc); ok && al.Referrers() != nil {
+								for _, r2 := range *al.Referrers() {
+									if u, ok := r2.(*ssa.UnOp); ok {
+										work = append(work, u)
+									}
+								}
+							}
+						}
+					}
+				}
+				c.check(reraised, "RW.RECOVER", "recover() in "+relName(f), r.w.Pos(call.Pos()),
+					"what is recovered is raised again (only the private sentinel is absorbed): a diagnostic still ends the run",
+					"the recovered value never reaches a panic: a rejection (r.assert) raised below this point is swallowed and the run ends normally")
+			}
+		}
+	}
+	if sites == 0 {
+		c.ok("RW.RECOVER", "recover() in package rewriter", "", "no recover call: every diagnostic ends the run")
+	}
+}
+
+// OPT.MEMO (C15): a table that is filled while files are processed and read again later makes the output of
+// one file depend on the files processed before it, unless the key it is filled under determines the value.
+// For every map update in package rewriter whose map lives longer than the call (a captured variable or a
+// field), every parameter of the enclosing function that the stored value is computed from must also be one
+// the key is computed from: memoising MustLookup(name) under name is fine, memoising a verdict computed from
+// (ctx, expr) under the spelling of expr is not (the first file's type information decides for all later ones).
+func (r *rwRT) ruleMemo() {
+	c := r.c
+	n := 0
+	for _, f := range r.w.FuncsOf(pathRw) {
+		for _, b := range f.Blocks {
+			for _, ins := range b.Instrs {
+				mu, ok := ins.(*ssa.MapUpdate)
+				if !ok {
+					continue
+				}
+				if !outlivesCall(mu.Map) {
+					continue
+				}
+				n++
+				c.fn(relName(f))
+				pv, pk := paramDeps(mu.Value), paramDeps(mu.Key)
+				var missing []string
+				for p := range pv {
+					if !pk[p] {
+						missing = append(missing, p.Name())
+					}
+				}
+				sort.Strings(missing)
+				c.check(len(missing) == 0, "OPT.MEMO", fmt.Sprintf("map update in %s (key %s)", relName(f), mu.Key.Name()), r.w.Pos(mu.Pos()),
+					"the stored value is computed from nothing but what the key is computed from (and constants / captured configuration)",
+					"a value computed from "+strings.Join(missing, ", ")+" is remembered under a key that does not depend on it: a later lookup under the same key returns the verdict of the first file / context that asked (output depends on what was processed before)")
+			}
+		}
+	}
+	if n == 0 {
+		c.ok("OPT.MEMO", "long-lived tables of package rewriter", "", "no map outliving a call is updated")
+	}
+}
+
+// outlivesCall: is the map reached through a captured variable, a field, or a global (not a local of the call)?
+func outlivesCall(m ssa.Value) bool {
+	switch x := m.(type) {
+	case *ssa.UnOp:
+		return outlivesCall(x.X)
+	case *ssa.FreeVar, *ssa.Global, *ssa.FieldAddr, *ssa.Field:
+		return true
+	case *ssa.Phi:
+		for _, e := range x.Edges {
+			if outlivesCall(e) {
+				return true
+			}
+		}
+	}
+	return false
+}
+
+// paramDeps: the parameters of the enclosing function a value is computed from (backward slice inside the function;
+// loads of local cells follow the stores into them; captured variables and globals are configuration).
+func paramDeps(v ssa.Value) map[*ssa.Parameter]bool {
+	out := map[*ssa.Parameter]bool{}
+	seen := map[ssa.Value]bool{}
+	var walk func(v ssa.Value)
+	walk = func(v ssa.Value) {
+		if v == nil || seen[v] {
+			return
+		}
+		seen[v] = true
+		switch x := v.(type) {
+		case *ssa.Parameter:
+			out[x] = true
+			return
+		case *ssa.Alloc:
+			if x.Referrers() != nil {
+				for _, ref := range *x.Referrers() {
+					if st, ok := ref.(*ssa.Store); ok && st.Addr == x {
+						walk(st.Val)
+					}
+				}
+			}
+			return
+		}
+		if ins, ok := v.(ssa.Instruction); ok {
+			for _, op := range ins.Operands(nil) {
+				if op != nil && *op != nil {
+					walk(*op)
+				}
+			}
+		}
+	}
+	walk(v)
+	return out
+}
+
+// RW.TERM (panic call sites, C11): "terminating" includes a call of the predeclared panic — of the builtin, not
+// of whatever is spelled panic. yieldRewriter.isTerminating is run on the statement `panic(x)` in a package that
+// declares its own function panic: the pattern matcher finds no call of the builtin, every type-information
+// query answers with the user's function, and syntactic traversals see the identifier. The verdict must be
+// "not terminating": otherwise the closing `return Normal()` is dropped after such a call and the thunk does
+// not build ("missing return").
+func (r *rwRT) ruleTermPanicSites() {
+	c := r.c
+	fn := r.w.MethodOpt(pathRw, "yieldRewriter", "isTerminating")
+	if fn == nil {
+		undecided("method yieldRewriter.isTerminating not found")
+	}
+	c.fn(relName(fn))
+	pos := r.w.FnPos(fn)
+	st := newState()
+	_, fun := r.heapNode(st, "Ident", map[string]AV{"Name": mkString("panic")})
+	_, arg := r.heapNode(st, "Ident", map[string]AV{"Name": mkString("x")})
+	_, call := r.heapNode(st, "CallExpr", map[string]AV{"Fun": fun, "Args": SliceV{Elems: []AV{arg}}})
+	_, stmt := r.heapNode(st, "ExprStmt", map[string]AV{"X": call})
+	userPanic := Sym{Name: "obj:user-declared panic", NN: true, Uniq: true}
+	builtinPanic := Sym{Name: "obj:builtin panic", NN: true, Uniq: true}
+	// the set (or predicate) of panic call sites is what the termination checker is constructed from
+	in := r.interp(rwConfig{root: fn, boundaries: map[string]bool{"mkTerminationChecker": true}})
+	in.MaxDepth, in.MaxRecur, in.MaxVisits = 30, 8, 8
+	var nodesOf func(st *State, v AV, seen map[int]bool) []AV
+	nodesOf = func(st *State, v AV, seen map[int]bool) []AV {
+		var out []AV
+		switch x := v.(type) {
+		case Dyn:
+			if ref, ok := x.V.(Ref); ok && !seen[ref.ID] {
+				if o := st.Obj(ref); o != nil && o.T != nil && strings.Contains(o.T.String(), "go/ast.") {
+					seen[ref.ID] = true
+					out = append(out, x)
+					var names []string
+					for k := range o.Fields {
+						names = append(names, k)
+					}
+					sort.Strings(names)
+					for _, k := range names {
+						out = append(out, nodesOf(st, o.Fields[k], seen)...)
+					}
+				}
+			}
+		case SliceV:
+			for _, e := range x.Elems {
+				out = append(out, nodesOf(st, e, seen)...)
+			}
+		}
+		return out
+	}
+	in.OnCall = wrapOnCall(in.OnCall, func(cc *CallCtx) []Answer {
+		if cc.Fn == nil {
+			return nil
+		}
+		pkg := fnPkgPath(cc.Fn)
+		switch {
+		case cc.Fn.Name() == "Unparen" && len(cc.Args) == 1:
+			return []Answer{{Ret: []AV{cc.Args[0]}, NoEvent: true}}
+		case (cc.Fn.Name() == "Inspect" || cc.Fn.Name() == "Walk") && strings.HasSuffix(pkg, "go/ast") && len(cc.Args) == 2:
+			// a syntactic traversal: the callback sees every node of the statement (and the closing nil)
+			var inv []Invocation
+			root, cb := cc.Args[0], cc.Args[1]
+			if cc.Fn.Name() == "Walk" {
+				return nil
+			}
+			for _, n := range nodesOf(cc.St, root, map[int]bool{}) {
+				inv = append(inv, Invocation{Fn: cb, Args: []AV{n}})
+			}
+			inv = append(inv, Invocation{Fn: cb, Args: []AV{Nil{}}})
+			return []Answer{{Invoke: inv, NoEvent: true}}
+		case cc.Fn.Name() == "Match" && strings.Contains(pkg, "matcher"):
+			// the semantic pattern "callee is the builtin panic" has no match in this statement
+			return []Answer{{NoEvent: true}}
+		case cc.Fn.Name() == "Lookup" && strings.HasSuffix(pkg, "go/types"):
+			return []Answer{{Ret: []AV{builtinPanic}, NoEvent: true}}
+		case cc.Fn.Name() == "ObjectOf" || cc.Fn.Name() == "Callee" || cc.Fn.Name() == "Uses":
+			return []Answer{{Ret: []AV{userPanic}, NoEvent: true}}
+		}
+		return nil
+	})
+	outs := in.Run(st, fn, []AV{Sym{Name: "r", NN: true}, stmt}, nil)
+	r.account(in)
+	bad := ""
+	judged := 0
+	for _, o := range outs {
+		if os.Getenv("VERIF_DEBUG_PANICSITES") != "" {
+			fmt.Fprintf(os.Stderr, "PANICSITES %v %v %s\n", o.Panicked, o.Ret, pathSummary(o))
+		}
+		if o.Panicked {
+			continue
+		}
+		for _, e := range o.St.Events {
+			if e.Kind != "call" || e.Fn == nil || e.Fn.Name() != "mkTerminationChecker" || len(e.Args) != 1 {
+				continue
+			}
+			judged++
+			isSite, known := false, false
+			switch sv := e.Args[0].(type) {
+			case MapV:
+				_, isSite = sv.M[unwrap(call).String()]
+				known = true
+			case Ref:
+				if mo := o.St.Obj(sv); mo != nil && mo.Kind == 'm' {
+					known = true
+					for _, k := range mo.Elems {
+						if sameAV(unwrap(k), unwrap(call)) {
+							isSite = true
+						}
+					}
+				}
+			case Closure:
+				for _, po := range in.Apply(o.St, sv, []AV{unwrap(call)}) {
+					if po.Panicked || len(po.Ret) != 1 {
+						continue
+					}
+					if b, ok := asBool(po.Ret[0]); ok {
+						known = true
+						isSite = isSite || b
+					}
+				}
+			}
+			if !known {
+				bad = "what the termination checker is told about panic call sites is not determined for a call of a user-declared panic: " + e.Args[0].String()
+			} else if isSite {
+				bad = "a call of a function that is merely spelled panic (declared by the package itself) is handed to the termination checker as a call of the builtin: the statement counts as terminating, the closing `return Normal()` is dropped after it and the thunk does not build"
+			}
+		}
+	}
+	if judged == 0 {
+		undecided("yieldRewriter.isTerminating does not construct the termination checker through mkTerminationChecker")
+	}
+	c.check(bad == "" && len(outs) > 0, "RW.TERM", "panic call sites are calls of the builtin", pos,
+		"a user-declared function named panic is not a terminating call", bad)
 }
